@@ -235,6 +235,8 @@ enum TOp {
     MWrite,
     MReserve,
     MTryReclaim,
+    /// reserve more than the spare capacity while keeping the contents (copies out of shared storage)
+    MGrow,
     MFreeze,
     MUnsplit,
 }
@@ -494,6 +496,26 @@ fn run_thread(tid: usize, ops: &[TOp], mut own: Vec<Hd>, mut muts: Vec<(BytesMut
                     }
                 }
             }
+            TOp::MGrow => {
+                if let Some((m, expect)) = muts.last_mut() {
+                    ctx.ghost_read(m.as_ptr() as usize, m.len());
+                    let total = 2 * ctx.region_len;
+                    let before = m.as_ptr() as usize;
+                    m.reserve(total + 4);
+                    let p = m.as_ptr() as usize;
+                    if &m[..] != &expect[..] {
+                        panic!("C05,C01{}: BytesMut after a growing reserve holds {:02x?}, want {:02x?}", if m.iter().any(|&x| x == 0xDD) { ",C02" } else { "" }, &m[..], expect);
+                    }
+                    if p == before && ctx.in_buffer(p) {
+                        take_excl(tid * 4);
+                        ctx.ghost_write(ctx.base, total);
+                    } else {
+                        note_outcome(tid * 4 + 1);
+                    }
+                    crate::BufMut::put_u8(m, 0xE1);
+                    expect.push(0xE1);
+                }
+            }
             TOp::MFreeze => {
                 if let Some((m, expect)) = muts.pop() {
                     ctx.ghost_read(m.as_ptr() as usize, m.len());
@@ -748,7 +770,7 @@ fn seqs(alpha: &[TOp], max_len: usize, first: &[TOp]) -> Vec<Vec<TOp>> {
 fn family(set: &str) -> Vec<Program> {
     let core = [TOp::CloneRef, TOp::Drop, TOp::TryIntoMut, TOp::IntoVec];
     let full = [TOp::CloneRef, TOp::CloneOwn, TOp::Read, TOp::Slice, TOp::Drop, TOp::TryIntoMut, TOp::IntoMut, TOp::IntoVec];
-    let mcore = [TOp::MWrite, TOp::MReserve, TOp::MTryReclaim, TOp::MFreeze, TOp::Drop];
+    let mcore = [TOp::MWrite, TOp::MReserve, TOp::MTryReclaim, TOp::MGrow, TOp::MFreeze, TOp::Drop];
     let mut out = vec![];
     let (alpha, k, mains): (&[TOp], usize, &[MainMode]) = match set {
         "quick" => (&core, 2, &[MainMode::Keep, MainMode::DropEarly]),
